@@ -22,7 +22,7 @@ def run(rep):
     obls = [(wiring.prayer_times_dt_wiring, False), (wiring.get_hours_wiring, None), (kernels.order_twilight_vs_riseset, 60),
             (kernels.fajr_isha_monotone, 60), (kernels.asr, 60), (policy.policy_clauses, ("None", ["none"], "named")),
             (jd.jd_formula, (1600, 2399)), (policy.imsaak, None), (transit.ra_deltas, None), (transit.dhuhr_transit, None)]
-    obls += [(rounding.rounding, (m, k, -50, 75, 1500)) for m in ("None", "SpecialRounding") for k in ("Fajr", "Shurooq", "Isha")]
+    obls += [(rounding.rounding, (m, k, -50, 75, 1500)) for m in rounding.MODES for k in ("Fajr", "Shurooq", "Isha")]
     results = base.run_obligations(rep, obls)
     cands = [c for x in results for c in x["cands"]]
     if cands or any(x["inconclusive"] for x in results) or rep.tier == "thorough":
